@@ -64,14 +64,14 @@ def one_schedule(scn, first, k1, k2, k3=None):
     log = []
     ms, bts = 1, 0
     import threading as _th
-    sim.trx[ms]._tx_queue_lock = _th.Lock()
+    _set_locks(sim.trx[ms], _th.Lock)
     for t, (rx, tx) in ((bts, (890200, 935200)), (ms, (935200, 890200))):
         sim.cmd(t, b"CMD POWEROFF\0")
     for t, (rx, tx) in ((bts, (890200, 935200)), (ms, (935200, 890200))):
         sim.cmd(t, b"CMD RXTUNE %d\0" % rx)
         sim.cmd(t, b"CMD TXTUNE %d\0" % tx)
         sim.cmd(t, b"CMD POWERON\0")
-    if not (sim.app.clck_gen.clck_src == scn["fn"] and len(sim.trx[ms]._tx_queue) == 0):
+    if not (sim.app.clck_gen.clck_src == scn["fn"] and len(sim.queue(ms) or []) == 0):
         raise ResetFailed("power cycling did not restart the clock / clear the queue")
     for m in scn["q"]:
         sim.data(ms, FC.tx_datagram(0, m["fn"], m["id"], 0, bytes(148)))
@@ -79,7 +79,12 @@ def one_schedule(scn, first, k1, k2, k3=None):
         sim.cmd(ms, b"CMD POWEROFF\0")          # clears the queue; scenario queues are empty then
     bt = baton.Baton(TRACED)
     lock = baton.BatonLock(bt, lambda: threading.current_thread().name)
-    sim.trx[ms]._tx_queue_lock = lock
+    if _set_locks(sim.trx[ms], lambda: lock) == 0:
+        # no mutex found on the transceiver object: a pre-empted thread could block on a lock the baton
+        # does not know, so only the two sequential orders are run
+        _SIM["nolock"] = True
+        if k1 < 10 ** 6:
+            k1, k2, k3 = 10 ** 6, 0, None
     sim.net.take()
 
     def hook(sock, data, addr):
@@ -90,12 +95,18 @@ def one_schedule(scn, first, k1, k2, k3=None):
 
     class H(logging.Handler):
         def emit(self, rec):
+            import os
+            import re
             msg = rec.getMessage()
             m = F._STALE.match(msg)
             if m:
-                import re
                 mt = re.search(r"\btn=(\d+)", m.group(3))
                 log.append(dict(e="stale", id=int(mt.group(1))))
+            elif os.path.basename(rec.pathname or "") == "transceiver.py":
+                # the wording is the maintainer's: a warning of the transceiver that names a burst is the report
+                tns = re.findall(r"\btn=(\d+)", msg)
+                if tns:
+                    log.append(dict(e="stale", id=int(tns[-1])))
     h = H(logging.WARNING)
     logging.getLogger().addHandler(h)
     ops_seq = scn["ops"] if "ops" in scn else [scn["op"]]
@@ -126,9 +137,23 @@ def one_schedule(scn, first, k1, k2, k3=None):
     finally:
         logging.getLogger().removeHandler(h)
         sim.net.hook = None
-    log.append(dict(e="final", q=[m.tn for m in sim.trx[ms]._tx_queue], run=bool(sim.trx[ms].running)))
+    fq = sim.queue(ms)
+    log.append(dict(e="final", q=[tn for (_, tn) in (fq or [])], qunobs=fq is None, run=bool(sim.trx[ms].running)))
     return log, dict(steps, mark=bt.marks.get("clk", 0), acq=bt.first_acq.get("clk", 0),
                      smark=bt.marks.get("sock", 0), sacq=bt.first_acq.get("sock", 0)), dict(bt.errors)
+
+
+def _set_locks(trx, make):
+    """Replace every mutex held in an attribute of the transceiver object (by type, not by name)."""
+    import threading
+    import baton
+    kinds = (type(threading.Lock()), type(threading.RLock()), baton.BatonLock)
+    n = 0
+    for k, v in list(vars(trx).items()):
+        if isinstance(v, kinds):
+            setattr(trx, k, make())
+            n += 1
+    return n
 
 
 def _named(fn, name):
@@ -220,6 +245,8 @@ def schedules(ctx, only=None):
                             traces.append(dict(id="y%d-%s-%d-%d-%d" % (si, first, k1, k2, k3), cfg=dict(run=scn["run"], q=scn["q"]), ev=log))
         ctx.log("scenario %d: %d+%d line steps, %d executions so far" % (si, na, nb, nexec))
     ctx.extra["schedules_executed"] = nexec
+    if _SIM.get("nolock"):
+        ctx.extra["schedules_note"] = "no mutex attribute found on the transceiver object: only sequential orders were run"
     # identical event sequences need to be validated only once
     uniq = {}
     for t in traces:
